@@ -107,6 +107,19 @@ func runC13(res *lib.Result, tier string, seed int64, args []string) error {
 		var decls []decl
 		add := func(kind int) {
 			name := fmt.Sprintf("v%d", len(decls)+1)
+			// kind 6: an alias of an earlier local value, with a comment of its own (which is its documentation, not
+			// the comment of the variable it is initialised with)
+			aliasOf := ""
+			if kind == 6 {
+				for _, e := range decls {
+					if e.local && e.params == "" && !e.vararg && e.use == e.name && e.declCol == 0 {
+						aliasOf = e.name
+					}
+				}
+				if aliasOf == "" {
+					kind = 0
+				}
+			}
 			if r.Chance(1, 4) {
 				// a comment that is not attached to anything: one or two blank lines follow it
 				dm := mark()
@@ -122,6 +135,9 @@ func runC13(res *lib.Result, tier string, seed int64, args []string) error {
 			markers := []string{m1}
 			trailing := r.Chance(1, 2)
 			bare := r.Chance(1, 5) // no comment at all: must not inherit a neighbour's
+			if aliasOf != "" {
+				bare = false
+			}
 			if bare {
 				trailing, comment, markers = false, "", nil
 			} else if !trailing {
@@ -153,6 +169,9 @@ func runC13(res *lib.Result, tier string, seed int64, args []string) error {
 			case 5:
 				d.use = tbl + "." + name
 				text = tbl + "." + name + " = 3"
+			case 6:
+				text = "local " + name + " = " + aliasOf
+				d.local = true
 			case 0:
 				text = "local " + name + " = 1"
 				d.local = true
@@ -188,7 +207,7 @@ func runC13(res *lib.Result, tier string, seed int64, args []string) error {
 				d.declCol = strings.Index(text, name)
 			}
 			lines = append(lines, text)
-			if kind >= 2 && kind != 5 {
+			if kind >= 2 && kind != 5 && kind != 6 {
 				lines = append(lines, "  return 1", "end")
 			}
 			if r.Chance(1, 2) {
@@ -198,7 +217,7 @@ func runC13(res *lib.Result, tier string, seed int64, args []string) error {
 		}
 		n := 2 + r.Intn(3)
 		for k := 0; k < n; k++ {
-			add(r.Intn(6))
+			add(r.Intn(7))
 		}
 		useLine := len(lines)
 		var uses []string
@@ -211,7 +230,13 @@ func runC13(res *lib.Result, tier string, seed int64, args []string) error {
 		for k, u := range uses {
 			lines = append(lines, "print(\"s\""+[]string{"..", " ..", ".. "}[k%3]+u+")")
 		}
-		src := strings.Join(lines, "\n") + "\n"
+		// a third of the workspaces is written with CRLF line ends (the documentation must not carry the CR)
+		eol := "\n"
+		if i%3 == 1 {
+			eol = "\r\n"
+			res.Dist("e2e.crlf")
+		}
+		src := strings.Join(lines, eol) + eol
 		// a second file that uses the globals of main.lua; every line up to its print carries a comment of its own,
 		// at the line numbers of main.lua's declarations: the documentation of a global is the comment in the file
 		// that declares it
@@ -232,7 +257,7 @@ func runC13(res *lib.Result, tier string, seed int64, args []string) error {
 		}
 		userUseLine := len(ulines)
 		ulines = append(ulines, "print("+strings.Join(guses, ", ")+")")
-		usrc := strings.Join(ulines, "\n") + "\n"
+		usrc := strings.Join(ulines, eol) + eol
 		if err := lib.WriteWorkspace(dir, map[string]string{"main.lua": src, "user.lua": usrc}); err != nil {
 			return err
 		}
@@ -332,6 +357,10 @@ func runC13(res *lib.Result, tier string, seed int64, args []string) error {
 			for _, cl := range strings.Split(d.comment, "\n") {
 				if cl != "" && !strings.Contains(hov, cl) {
 					docOK = false
+				}
+				// the line end is not part of the comment (files written with CRLF)
+				if k := strings.Index(hov, cl); cl != "" && k >= 0 && strings.HasPrefix(hov[k+len(cl):], "\r") {
+					problems = append(problems, fmt.Sprintf("the documentation line %q is followed by a carriage return in %q", cl, lib.Trunc(hov, 200)))
 				}
 			}
 			if !docOK {
